@@ -90,3 +90,21 @@ Check C16_fill_counter_sound : forall c ops,
   let t := final (lru_new c) ops in
   length (tbl t) = 2 ^ cap t /\ occupied_count t <= num_filled t.
 Print Assumptions C16_fill_counter_sound.
+
+(* "... and the SDD apply and if-then-else caches never change a result": an SDD operation program
+   (and / or / negate / ite / condition / exists / compose / CNF compilation steps, the ite cache
+   threaded through the run) returns the same pool of canonical SDDs under any two behaviours of
+   the apply cache that answer soundly and in normal form -- the shipped never-forgetting HashMap is
+   one such behaviour, the empty cache another.  (Proved with C04's canonicity; restated here with
+   qualified names because the SDD and BDD models share identifiers.) *)
+From RsddV Require Model.SddVtree Model.SddOps Proofs.SddAnd Proofs.SddWfAnd Proofs.SddProg Properties.C04.
+Theorem C16_sdd_cache_transparent : forall t cache1 cache2 ops,
+  NoDup (SddVtree.vleaves t) ->
+  SddAnd.cache_sound t cache1 -> SddWfAnd.cache_nf cache1 ->
+  SddAnd.cache_sound t cache2 -> SddWfAnd.cache_nf cache2 ->
+  Forall (SddProg.op_wf t) ops ->
+  exists pool ic1 ic2,
+    SddOps.run_m t true cache1 (S (SddVtree.vheight t)) ([], []) ops = SddOps.Ok (pool, ic1) /\
+    SddOps.run_m t true cache2 (S (SddVtree.vheight t)) ([], []) ops = SddOps.Ok (pool, ic2).
+Proof. exact C04.C04_cache_independent. Qed.
+Print Assumptions C16_sdd_cache_transparent.
